@@ -57,9 +57,15 @@ def rel(c, e, g):
     if e['readback'] is not None and g['readback'] != e['readback']:
         return False
     if c.get('qcsv') and e['exact'] and e['readback'] is not None and g.get('qcsv') is not None:
-        if g['qcsv'] != [e['lines_lf'], e['readback'][1]]:
+        if g['qcsv'] != qcsv_expected(e):
             return False
     return True
+
+
+def qcsv_expected(e):
+    # select * re-writes the same normalised records with the same policy: the writer's separator flag of the model
+    # applies again (an empty record under whitespace sets it), the reader contributes the field-count warning
+    return [e['lines_lf'], sorted(e['readback'][1] + (['separator'] if e['delim'] else []))]
 
 
 def corrupt(e):
@@ -79,7 +85,7 @@ def describe(c, e, g):
         return '%s: unexpected writer warnings %r' % (cfg, g['other_warnings'])
     if e['readback'] is not None and g['readback'] != e['readback']:
         return '%s: representable table does not read back: expected (records, warnings) %r got %r' % (cfg, e['readback'], g['readback'])
-    return '%s: query_csv select * file to file: expected %r got %r' % (cfg, [e['lines_lf'], e['readback'] and e['readback'][1]], g.get('qcsv'))
+    return '%s: query_csv select * file to file: expected %r got %r' % (cfg, qcsv_expected(e) if e['readback'] else None, g.get('qcsv'))
 
 
 # ---------------------------------------------------------------- generators
